@@ -46,10 +46,11 @@ LayerFOK(ev) ==
        /\ ev.rows[k].new_err_cb <= ev.scale_cb + TolSum(ev.f32, ev.d) + 44 * ev.rows[k].mag_c    \* same rule, reassociation only
        /\ ev.rows[k].var_err_cb <= ev.scale_cb + TolSum(ev.f32, ev.d)
 
-\* one quantiser for all sixteen 8-bit variants, odd-symmetric (saturation "symmetrically to +-127"): whatever direction exact ties take
+\* one quantiser for all sixteen 8-bit variants, whatever direction exact ties take (x and -x are both asked; no symmetry is demanded
+\* at ties: "round half up" is a rounding too)
 QuantFamOK(ev) ==
   /\ ev.o = "ok" /\ Len(ev.got) = 16 /\ Len(ev.neg) = 16
-  /\ \A k \in 1..16 : ev.got[k] = ev.got[1] /\ ev.got[k] \in -127..127 /\ ev.neg[k] = -ev.got[k]
+  /\ \A k \in 1..16 : ev.got[k] = ev.got[1] /\ ev.got[k] \in -127..127 /\ ev.neg[k] = ev.neg[1] /\ ev.neg[k] \in -127..127
 
 OK(ev) == CASE ev.e = "QuantFam" -> QuantFamOK(ev) [] ev.e = "Quant8" -> Quant8OK(ev) [] ev.e = "Var8" -> Var8OK(ev) [] ev.e = "Layer8" -> Layer8OK(ev)
             [] ev.e = "VarF" -> VarFOK(ev) [] ev.e = "LayerF" -> LayerFOK(ev) [] OTHER -> FALSE
